@@ -356,6 +356,7 @@ func init() {
 	// is the special-case printing of sentinel-equivalent leaves, which
 	// concerns the rendering and redaction properties
 	osl.QuirkFor = []string{"C03", "C06", "C09", "C10", "C12"}
+	osl.QuirkStringsFor = []string{"C03", "C06"}
 	// texts that embed the constant text of a sentinel
 	for _, st := range []string{context.DeadlineExceeded.Error(), context.Canceled.Error(), os.ErrInvalid.Error(), os.ErrPermission.Error(),
 		os.ErrExist.Error(), os.ErrNotExist.Error(), os.ErrClosed.Error(), os.ErrDeadlineExceeded.Error()} {
